@@ -461,7 +461,13 @@ def run(ctx):
         ctx.cap('TX engine not importable: the schedule part was skipped (sequential cross-thread checks only)')
     executions = fired = sched_exec = sched_fired = transitions = 0
     outcomes, sched_outcomes = set(), set()
-    for kind, r in ctx.pmap(dispatch, ctx.shuffled(items)):
+    def on_hang(unfinished):
+        # after an injected fault nothing may block for good: a task that never returns IS the leak
+        kinds = sorted(set('%s:%s' % (k, (a[0] if isinstance(a, tuple) else a)) for k, a in unfinished))
+        ctx.violation('check-task-blocked-for-good|%s' % ('shape' if any(k.startswith('shape') for k in kinds) else 'schedule'),
+                      dict(unfinished=[repr(u)[:200] for u in unfinished[:20]]),
+                      'executions under an injected fault never returned (a lock or connection is held for good): %s' % kinds[:8])
+    for kind, r in ctx.pmap(dispatch, ctx.shuffled(items), hang_timeout=300 if ctx.quick else 1200, on_hang=on_hang):
         core.absorb(ctx, r['sub'])
         if kind == 'shape':
             executions += r['st']['executions']; fired += r['st']['fired']; outcomes.update(r['outcomes'])
